@@ -21,7 +21,7 @@ ASSUMPTIONS = [
     "accumulate/apply are never given an empty array (they raise ValueError, which the statement does not cover)",
     "without statistics only tensors holding >= 2 feature vectors are applied (a lone vector raises or is zeroed, "
     "outside the statement)",
-    "values against the oracle: |err| <= 1e-7 * max(1, max|ref|); two histories of the same data: "
+    "values against the oracle: |err| <= max(1e-11, 256 N eps (1 + mean^2/var)) * max(1, max|ref|); two histories of the same data: "
     "|a-b| <= max(1e-10, 32 N eps (1 + max mean^2/var)) * max(1, max|ref|); own-statistics moments: 1e-9",
     "with in_place=True only the returned value, dtype and shape are checked",
 ]
@@ -340,6 +340,14 @@ def _fresh(norm_var):
     return s
 
 
+def _vtol(data, mean, var, norm_var):
+    """Relative tolerance of a float64 computation of the moments: the variance E[x^2] - mean^2 loses
+    mean^2/var of its precision, so a few hundred ulps times that condition number -- far below what a
+    single-precision accumulation (1e-7) would produce on well-conditioned data."""
+    kappa = 1.0 + (float(np.max(mean * mean / var)) if norm_var else 0.0)
+    return max(1e-11, 256 * data.shape[0] * EPS * kappa)
+
+
 def check_values(case):
     spec, norm_var = case["data"], bool(case["norm_var"])
     data = make_dataset(spec)
@@ -352,7 +360,7 @@ def check_values(case):
     in_place = bool(app.get("in_place", False))
     out, x0 = apply_checked(s, x, axis, in_place, "Standardize")
     ref = post_ref.standardize_ref(x0, mean, var, axis if x0.ndim > 1 else 0, norm_var)
-    tol = 1e-7 * max(1.0, float(np.max(np.abs(ref))))
+    tol = _vtol(data, mean, var, norm_var) * max(1.0, float(np.max(np.abs(ref))))
     compare("apply vs (x - mean)/std of the %d accumulated vectors (calls: %s)" % (data.shape[0], ",".join(tags)),
             out, ref, tol)
     # statistics are not consumed: a second apply gives the same answer
@@ -380,7 +388,7 @@ def check_additive(case):
     tol = max(1e-10, 32 * data.shape[0] * EPS * kappa) * mx
     compare("history A (%s) vs history B (%s) of the same %d vectors" % (",".join(tags_a), ",".join(tags_b), data.shape[0]),
             oa, ob.astype(post_ref.LD), tol)
-    compare("history A vs oracle", oa, ref, 1e-7 * mx)
+    compare("history A vs oracle", oa, ref, _vtol(data, mean, var, norm_var) * mx)
     same_hist = (
         case["hist_a"].get("perm") == case["hist_b"].get("perm")
         and chunk_sizes(spec["N"], case["hist_a"]["cuts"]) == chunk_sizes(spec["N"], case["hist_b"]["cuts"])
@@ -467,7 +475,7 @@ def check_mismatch(case):
     x, ax, atag = make_apply_input(spec, app)
     out, x0 = apply_checked(s, x, ax, False, "Standardize (after rejected calls)")
     ref = post_ref.standardize_ref(x0, mean, var, ax if x0.ndim > 1 else 0, norm_var)
-    compare("apply after a rejected accumulate", out, ref, 1e-7 * max(1.0, float(np.max(np.abs(ref)))))
+    compare("apply after a rejected accumulate", out, ref, _vtol(data, mean, var, norm_var) * max(1.0, float(np.max(np.abs(ref)))))
     labs = ["wrong:" + tag.split("@")[0], "wrong_F<F" if W < F else "wrong_F>F", "dtype=" + spec["dtype"]]
     if W == 1:
         labs.append("wrong_F=1")
